@@ -279,7 +279,8 @@ def h_loaded_dict(I, fi):
     if not ok:
         return
     a, kw = log["prior"][0]
-    P.check("dict.prior-from-that-row", len(a) == 3 and I.equal(a[0], cell("major_cn")) is True and I.equal(a[1], cell("minor_cn")) is True and I.equal(a[2], cell("normal_cn")) is True and I.equal(kw.get("error_rate"), cell("error_rate")) is True,
+    err = a[3] if len(a) > 3 else kw.get("error_rate")
+    P.check("dict.prior-from-that-row", len(a) >= 3 and I.equal(a[0], cell("major_cn")) is True and I.equal(a[1], cell("minor_cn")) is True and I.equal(a[2], cell("normal_cn")) is True and I.equal(err, cell("error_rate")) is True,
             "the genotype prior is computed from that sample's row of that mutation: major, minor, normal copy number and error rate", kind="post")
     sd = log["sdp"][0]
     P.check("dict.counts-and-purity-from-that-row", I.equal(sd[0], cell("ref_counts")) is True and I.equal(sd[1], cell("alt_counts")) is True and sd[2:5] == (("cn", 1), ("mu", 1), ("log_pi", 1)) and I.equal(sd[5], cell("tumour_content")) is True,
